@@ -3,6 +3,7 @@ mod bencode;
 mod common;
 mod coop;
 mod http_sys;
+mod netmc;
 mod props;
 mod seqmc;
 mod udp_sys;
@@ -26,6 +27,7 @@ fn dispatch(args: &common::Args) {
         "C02" => props::c02::main(args),
         "C04" => props::c04::main(args),
         "C05" => props::c05::main(args),
+        "C06" => props::c06::main(args),
         "C07" => props::c07::main(args),
         "C08" => props::c08::main(args),
         "C09" => props::c09::main(args),
